@@ -162,6 +162,9 @@ pub struct TxSpec {
     pub ty: TxType,
     pub caller: u8,
     pub to: Option<u8>,
+    /// explicit destination overriding `to` (addresses outside the pool, e.g. CREATE2 children)
+    #[serde(default)]
+    pub to_extra: Option<[u8; 20]>,
     pub value: U256,
     pub data: DataSpec,
     pub gas: GasSel,
@@ -241,6 +244,7 @@ impl TxSpec {
             ty: TxType::Legacy,
             caller,
             to,
+            to_extra: None,
             value: U256::zero(),
             data: DataSpec::Bytes(vec![]),
             gas: GasSel::Fixed(gas),
@@ -301,7 +305,7 @@ impl TxSpec {
         let mut tx = Tx {
             tx_type: ty,
             caller,
-            to: self.to.map(pool::addr),
+            to: self.to_extra.or(self.to.map(pool::addr)),
             value: self.value,
             data: self.data.bytes(),
             gas_limit: 0,
@@ -588,6 +592,7 @@ pub fn tx_spec(cfg: &WorldCfg) -> BoxedStrategy<TxSpec> {
             ty,
             caller,
             to,
+            to_extra: None,
             value,
             data,
             gas,
